@@ -19,7 +19,7 @@ DETAILS = ["hash", "repr", "context", "all", "hash,repr", "repr,context"]
 MODES = ["file", "dir", "dir.dotted"]
 # value skins: the record sequence of a run does not depend on WHICH numbers flow through it, so one case in eight is
 # replayed with every number of its configuration and initial context replaced by an unusual-but-valid float
-SKINS = [float("inf"), float("-inf"), float("nan"), 1.7976931348623157e308, 5e-324, -0.0]
+SKINS = [float("inf"), float("-inf"), float("nan"), 5e-324, -0.0]      # (not 1.8e308: squaring it raises OverflowError -- the outcome would depend on the value)
 
 
 def skin(obj, special):
